@@ -131,7 +131,7 @@ def run(run, replay=None):
             traces.append(h.trace(len(traces), CHK))
             run.count(repr([(e['k'], e['tid'], e['ci'], e['fi'], e['name'], e['sec']) for e in h.ev]),
                       nontrivial=len(h.trees) >= 2)
-    can = _dcommon.dom_canaries(traces, rng)
+    can = run.tolerant(lambda: _dcommon.dom_canaries(traces, rng))
     run.judge('Trace_Dom', traces + can, cat.tables(), canary_ids=[c['id'] for c in can], describe=describe)
     return run.finish(
         rule='random interleavings (seeded) of mutators and observers over >= 3 live trees created by all routes; '
